@@ -16,7 +16,7 @@
 EXTENDS Integers, Sequences, FiniteSets, TLC, Json
 
 CONSTANTS Keys, W, D, Tables, Kind, Mode, CellMax, CellMin, TotMax, TotMin, Amts, NH, Thr,
-          MaxTrue, MaxDepth, Whos, AllowIllegit, Channels, MaxReloads, Queries, Modes
+          MaxTrue, MaxDepth, Whos, AllowIllegit, Channels, MaxReloads, Queries, Modes, Bad
 
 VARIABLES pos, sk, hist, last
 vars == <<pos, sk, hist, last>>
@@ -116,6 +116,9 @@ Ops == {<<"add", w, k, a>> : w \in Whos, k \in Keys, a \in Amts}
        \cup (IF Kind = "cms" THEN {<<"rt", w, c, 0>> : w \in Whos, c \in Channels} ELSE {})   \* export + load: identity
        \cup (IF Queries THEN {<<"chk", w, k, 0>> : w \in Whos, k \in Keys} ELSE {})
        \cup {<<"setq", w, m, 0>> : w \in Whos, m \in Modes}          \* the query_type setter
+       \cup {<<"bad", w, k, v>> : w \in Whos, k \in Keys, v \in Bad}
+          \* a call the library REJECTS (v = 1: add_alt, 2: remove_alt with a hash list longer than the sketch is deep): it raises, the caller
+          \* carries on with the same sketch - nothing was added, nothing removed
           \* a query is an ACTION that changes nothing (C19); it is in the history (used with ViewH) because the code may keep state
           \* across a query - a memo of the last answer, a cached total - that only shows in what happens afterwards
 
@@ -134,7 +137,7 @@ Do(o) == LET w == o[2]  s == sk[w] IN
               [] o[1] = "rt" -> /\ s.rl < MaxReloads
                                 /\ sk' = [sk EXCEPT ![w].rl = @ + 1] /\ last' = [o |-> o, ret |-> NoV]
               [] o[1] = "join" -> sk' = [sk EXCEPT ![w] = JoinS(s, sk[Other(w)])] /\ last' = [o |-> o, ret |-> NoV]
-              [] o[1] = "chk" -> sk' = sk /\ last' = [o |-> o, ret |-> NoV]
+              [] o[1] \in {"chk", "bad"} -> sk' = sk /\ last' = [o |-> o, ret |-> NoV]
          /\ hist' = Append(hist, o)
          /\ UNCHANGED pos
 
